@@ -6,6 +6,8 @@ f5_0:
   call f9_0
   call f5_0
   call f3_0
+  mov wvsv0@GOTPCREL(%rip),%rax
+  mov wvsv1(%rip),%rax
   ret
 .section wvset0,"aw",@progbits
   .quad f2_0
